@@ -658,6 +658,365 @@ def H (X0 : Xf K) : List (SV K) :=
 def HDot (X0 : Xf K) (w0 : V3 K) : List (SV K) := LineOrientation.HDot X0 w0 ++ [SV.zero, SV.zero, SV.zero]
 end FreeLine
 
+namespace Cantilever
+variable [OfNat K 2]
+/-- `defl = (2/3)·L`, `disp = (4/15)·L` are precomputed in the constructor -/
+def X (L defl disp c0 c1 c2 s0 s1 s2 q0 q1 : K) : Xf K :=
+  ⟨rotXYZ c0 c1 c2 s0 s1 s2, ⟨q1 * defl, -q0 * defl, L - disp * (q0 * q0 + q1 * q1)⟩⟩
+def H (defl disp c0 c1 s0 s1 q0 q1 : K) : List (SV K) :=
+  [⟨⟨1, 0, 0⟩, ⟨0, -defl, -(2 * disp * q0)⟩⟩,
+   ⟨⟨0, c0, s0⟩, ⟨defl, 0, -(2 * disp * q1)⟩⟩,
+   ⟨⟨s1, -s0 * c1, c0 * c1⟩, V3.zero⟩]
+def HDot (disp c0 c1 s0 s1 qd0 qd1 : K) : List (SV K) :=
+  let dc0 := -s0 * qd0; let dc1 := -s1 * qd1
+  let ds0 := c0 * qd0; let ds1 := c1 * qd1
+  [⟨⟨0, 0, 0⟩, ⟨0, 0, -(2 * disp * qd0)⟩⟩,
+   ⟨⟨0, dc0, ds0⟩, ⟨0, 0, -(2 * disp * qd1)⟩⟩,
+   ⟨⟨ds1, -ds0 * c1 - s0 * dc1, dc0 * c1 + c0 * dc1⟩, V3.zero⟩]
+/-- documented: body-fixed x-y-z angles; `p = (⅔ q₁ L, −⅔ q₀ L, L − 4⁄15 (q₀²+q₁²) L)`
+(stated with `defl`, `disp` constrained by `3·defl = 2·L`, `15·disp = 4·L` in the theorem) -/
+def docX (L defl disp c0 c1 c2 s0 s1 s2 q0 q1 : K) : Xf K :=
+  ⟨Gimbal.docR c0 c1 c2 s0 s1 s2, ⟨defl * q1, -(defl * q0), L - disp * (q0 * q0 + q1 * q1)⟩⟩
+end Cantilever
+
 end Types
+
+
+/-! ## `realizePosition` / `realizeVelocity` of `RigidBodyNodeSpec` (reversal handling) -/
+section Realize
+variable [Add K] [Sub K] [Mul K] [Neg K] [OfNat K 0] [OfNat K 1]
+
+/-- `realizePosition`: a reversed mobilizer stores `~X_MF` where `X_MF = calcX_FM(q)` -/
+def realizeX (rev : Bool) (X0 : Xf K) : Xf K := if rev then Xf.inv X0 else X0
+/-- `findX_F0M0` -/
+def findX_F0M0 (rev : Bool) (X_FM : Xf K) : Xf K := if rev then Xf.inv X_FM else X_FM
+/-- `findV_F0M0` -/
+def findV_F0M0 (rev : Bool) (X_FM : Xf K) (V_FM : SV K) : SV K :=
+  if rev then reverseSpatialVelocity X_FM V_FM else V_FM
+/-- `H_FM`: forward = as defined; reversed = the type's override if it has one, else the default reversal -/
+def realizeH (rev : Bool) (X_FM : Xf K) (H0 : List (SV K)) (Hover : Option (List (SV K))) : List (SV K) :=
+  if rev then (match Hover with | some h => h | none => reverseH X_FM H0) else H0
+def realizeHDot (rev : Bool) (X_FM : Xf K) (V_FM : SV K) (H_FM HDot0 : List (SV K))
+    (over : Option (List (SV K))) : List (SV K) :=
+  if rev then (match over with | some h => h | none => reverseHDot X_FM V_FM H_FM HDot0) else HDot0
+end Realize
+
+/-! ## Dispatch over the built-in types (used by the drivers; theorems are stated on the per-type definitions) -/
+
+inductive MobType
+  | pin | slider | cylinder | bendStretch | universal | planar | gimbal | bushing | ball | free
+  | translation | screw | sphericalCoords | ellipsoid | lineOrientation | freeLine | weld | cantilever
+deriving DecidableEq, Repr, Inhabited
+
+/-- everything the formulas read from the q-pool: raw `q`, `cos q[i]`, `sin q[i]`, `1/|quat|`, `1/cos q[1]` -/
+structure Coords (K : Type) where
+  q : List K
+  c : List K
+  s : List K
+  oon : K
+  ooc1 : K
+
+structure Spec (K : Type) where
+  ty : MobType
+  euler : Bool
+  /-- Screw: `[pitch]`; Ellipsoid: radii; Cantilever: `[L, (2/3)L, (4/15)L]`; SphericalCoords: `[cos az0, sin az0, cos ze0, sin ze0, sgAz, sgZe, sgT]` -/
+  par : List K
+  axisX : Bool
+
+section Dispatch
+variable [Add K] [Sub K] [Mul K] [Neg K] [Div K] [OfNat K 0] [OfNat K 1] [OfNat K 2]
+
+private def g (l : List K) (i : Nat) : K := l.getD i 0
+private def v3at (l : List K) (i : Nat) : V3 K := ⟨g l i, g l (i+1), g l (i+2)⟩
+private def l3 (v : V3 K) : List K := [v.x, v.y, v.z]
+private def l4 (q : Q4 K) : List K := [q.a, q.b, q.c, q.d]
+def Coords.quat (C : Coords K) : Q4 K := ⟨g C.q 0, g C.q 1, g C.q 2, g C.q 3⟩
+def Spec.sph (S : Spec K) : SphericalCoords.Par K :=
+  ⟨g S.par 0, g S.par 1, g S.par 2, g S.par 3, g S.par 4, g S.par 5, g S.par 6, S.axisX⟩
+
+def MobType.usesQuat : MobType → Bool
+  | .ball | .free | .ellipsoid | .lineOrientation | .freeLine => true
+  | _ => false
+def Spec.quatInUse (S : Spec K) : Bool := S.ty.usesQuat && !S.euler
+
+def Spec.nu (S : Spec K) : Nat :=
+  match S.ty with
+  | .pin | .slider | .screw => 1
+  | .cylinder | .bendStretch | .universal | .lineOrientation => 2
+  | .planar | .gimbal | .ball | .translation | .sphericalCoords | .ellipsoid | .cantilever => 3
+  | .freeLine => 5
+  | .bushing | .free => 6
+  | .weld => 0
+def Spec.nq (S : Spec K) : Nat :=
+  match S.ty with
+  | .ball | .ellipsoid | .lineOrientation => if S.euler then 3 else 4
+  | .free | .freeLine => if S.euler then 6 else 7
+  | _ => S.nu
+
+/-- rotation of the quaternion-capable types -/
+def Spec.ballR (S : Spec K) (C : Coords K) : M33 K :=
+  if S.euler then rotXYZ (g C.c 0) (g C.c 1) (g C.c 2) (g C.s 0) (g C.s 1) (g C.s 2)
+  else rotQuat (Q4.smul C.oon C.quat)
+
+/-- `calcX_FM(q)` : the transform in the frames in which the mobilizer is defined -/
+def Spec.X0 (S : Spec K) (C : Coords K) : Xf K :=
+  let c := g C.c; let s := g C.s; let q := g C.q
+  match S.ty with
+  | .pin => Pin.X (c 0) (s 0)
+  | .slider => Slider.X (q 0)
+  | .cylinder => Cylinder.X (c 0) (s 0) (q 1)
+  | .bendStretch => BendStretch.X (c 0) (s 0) (q 1)
+  | .universal => Universal.X (c 0) (s 0) (c 1) (s 1)
+  | .planar => Planar.X (c 0) (s 0) (q 1) (q 2)
+  | .gimbal => Gimbal.X (c 0) (c 1) (c 2) (s 0) (s 1) (s 2)
+  | .bushing => Bushing.X (c 0) (c 1) (c 2) (s 0) (s 1) (s 2) (v3at C.q 3)
+  | .ball | .lineOrientation => ⟨S.ballR C, V3.zero⟩
+  | .free | .freeLine => ⟨S.ballR C, v3at C.q (if S.euler then 3 else 4)⟩
+  | .translation => Translation.X (v3at C.q 0)
+  | .screw => Screw.X (g S.par 0) (c 0) (s 0) (q 0)
+  | .sphericalCoords => SphericalCoords.X S.sph (c 0) (s 0) (c 1) (s 1) (q 2)
+  | .ellipsoid => Ellipsoid.Xof (v3at S.par 0) (S.ballR C)
+  | .weld => Xf.one
+  | .cantilever => Cantilever.X (g S.par 0) (g S.par 1) (g S.par 2) (c 0) (c 1) (c 2) (s 0) (s 1) (s 2) (q 0) (q 1)
+
+/-- `calcAcrossJointVelocityJacobian` : `H_F0M0`; `X0` is what `findX_F0M0` returns -/
+def Spec.H0 (S : Spec K) (C : Coords K) (X0 : Xf K) : List (SV K) :=
+  let c := g C.c; let s := g C.s
+  match S.ty with
+  | .pin => Pin.H
+  | .slider => Slider.H
+  | .cylinder => Cylinder.H
+  | .bendStretch => BendStretch.H X0
+  | .universal => Universal.H X0
+  | .planar => Planar.H
+  | .gimbal => Gimbal.H (c 0) (c 1) (s 0) (s 1)
+  | .bushing => Bushing.H (c 0) (c 1) (s 0) (s 1)
+  | .ball => Ball.H
+  | .free => Free.H
+  | .translation => Translation.H
+  | .screw => Screw.H (g S.par 0)
+  | .sphericalCoords => SphericalCoords.H S.sph X0
+  | .ellipsoid => Ellipsoid.H (v3at S.par 0) X0.R.col2
+  | .lineOrientation => LineOrientation.H X0
+  | .freeLine => FreeLine.H X0
+  | .weld => []
+  | .cantilever => Cantilever.H (g S.par 1) (g S.par 2) (c 0) (c 1) (s 0) (s 1) (g C.q 0) (g C.q 1)
+
+/-- overridden `calcReverseMobilizerH_FM` -/
+def Spec.Hrev (S : Spec K) : Option (List (SV K)) :=
+  match S.ty with
+  | .pin => some Pin.Hrev
+  | .slider => some Slider.Hrev
+  | .cylinder => some Cylinder.Hrev
+  | .translation => some Translation.Hrev
+  | .screw => some (Screw.Hrev (g S.par 0))
+  | _ => none
+/-- overridden `calcReverseMobilizerHDot_FM` (all zero for the same types) -/
+def Spec.HDotRev (S : Spec K) : Option (List (SV K)) :=
+  match S.ty with
+  | .pin => some Pin.HDot
+  | .slider => some Slider.HDot
+  | .cylinder => some Cylinder.HDot
+  | .translation => some Translation.HDot
+  | .screw => some Screw.HDot
+  | _ => none
+
+/-- `calcAcrossJointVelocityJacobianDot` : `HDot_F0M0` from `X_F0M0`, `V_F0M0` and `qdot` -/
+def Spec.HDot0 (S : Spec K) (C : Coords K) (X0 : Xf K) (V0 : SV K) (qdot : List K) : List (SV K) :=
+  let c := g C.c; let s := g C.s
+  match S.ty with
+  | .pin => Pin.HDot
+  | .slider => Slider.HDot
+  | .cylinder => Cylinder.HDot
+  | .bendStretch => BendStretch.HDot X0 V0
+  | .universal => Universal.HDot X0 V0.w
+  | .planar => Planar.HDot
+  | .gimbal => Gimbal.HDot (c 0) (c 1) (s 0) (s 1) (g qdot 0) (g qdot 1)
+  | .bushing => Bushing.HDot (c 0) (c 1) (s 0) (s 1) (g qdot 0) (g qdot 1)
+  | .ball => Ball.HDot
+  | .free => Free.HDot
+  | .translation => Translation.HDot
+  | .screw => Screw.HDot
+  | .sphericalCoords => SphericalCoords.HDot S.sph X0 V0
+  | .ellipsoid => Ellipsoid.HDot (v3at S.par 0) X0.R.col2 V0.w
+  | .lineOrientation => LineOrientation.HDot X0 V0.w
+  | .freeLine => FreeLine.HDot X0 V0.w
+  | .weld => []
+  | .cantilever => Cantilever.HDot (g S.par 2) (c 0) (c 1) (s 0) (s 1) (g qdot 0) (g qdot 1)
+
+/-- which rotational `N` block a type uses -/
+inductive NKind | ident | ballP | lineB
+def Spec.nkind (S : Spec K) : NKind :=
+  match S.ty with
+  | .ball | .free | .ellipsoid => .ballP
+  | .lineOrientation | .freeLine => .lineB
+  | _ => .ident
+/-- number of rotational speeds / offset of the translational tail -/
+def Spec.nuRot (S : Spec K) : Nat := match S.nkind with | .ballP => 3 | .lineB => 2 | .ident => 0
+def Spec.nqRot (S : Spec K) : Nat := match S.nkind with | .ident => 0 | _ => if S.euler then 3 else 4
+def Spec.hasTail (S : Spec K) : Bool := match S.ty with | .free | .freeLine => true | _ => false
+
+private def tail3 (has : Bool) (l : List K) (i : Nat) : List K := if has then l3 (v3at l i) else []
+private def zeros3 (has : Bool) : List K := if has then [0, 0, 0] else []
+
+/-- `multiplyByN(matrixOnRight=false)` / `calcQDot` : `out_q = N(q) in_u`.  `R_FM` is the rotation *in the cache*
+(used by LineOrientation/FreeLine in quaternion mode exactly as the code does) -/
+def Spec.mulN (S : Spec K) (C : Coords K) (R_FM : M33 K) (u : List K) : List K :=
+  match S.nkind with
+  | .ident => u.take S.nu
+  | .ballP =>
+    (if S.euler then l3 (bodyXYZ_N_P (g C.c 0) (g C.s 0) (g C.s 1) C.ooc1 (v3at u 0))
+     else l4 (quat_N C.quat (v3at u 0))) ++ tail3 S.hasTail u 3
+  | .lineB =>
+    let wM : V3 K := ⟨g u 0, g u 1, 0⟩
+    (if S.euler then l3 ((bodyXYZ_N_B (g C.s 1) (g C.c 2) (g C.s 2) C.ooc1).mulVec wM)
+     else l4 (quat_N C.quat (R_FM.mulVec wM))) ++ tail3 S.hasTail u 2
+
+/-- `multiplyByN(matrixOnRight=true)` : `out_u = ~N in_q` -/
+def Spec.mulNT (S : Spec K) (C : Coords K) (R_FM : M33 K) (f : List K) : List K :=
+  match S.nkind with
+  | .ident => f.take S.nu
+  | .ballP =>
+    (if S.euler then l3 (bodyXYZ_NT_P (g C.c 0) (g C.s 0) (g C.s 1) C.ooc1 (v3at f 0))
+     else l3 (quat_NT C.quat ⟨g f 0, g f 1, g f 2, g f 3⟩)) ++ tail3 S.hasTail f S.nqRot
+  | .lineB =>
+    let r : V3 K :=
+      if S.euler then (bodyXYZ_N_B (g C.s 1) (g C.c 2) (g C.s 2) C.ooc1).tr.mulVec (v3at f 0)
+      else R_FM.tr.mulVec (quat_NT C.quat ⟨g f 0, g f 1, g f 2, g f 3⟩)
+    [r.x, r.y] ++ tail3 S.hasTail f S.nqRot
+
+/-- `multiplyByNInv(matrixOnRight=false)` : `out_u = NInv in_q` -/
+def Spec.mulNInv (S : Spec K) (C : Coords K) (R_FM : M33 K) (qd : List K) : List K :=
+  match S.nkind with
+  | .ident => qd.take S.nu
+  | .ballP =>
+    (if S.euler then l3 (bodyXYZ_NInv_P (g C.c 0) (g C.s 0) (g C.c 1) (g C.s 1) (v3at qd 0))
+     else l3 (quat_NInv C.quat ⟨g qd 0, g qd 1, g qd 2, g qd 3⟩)) ++ tail3 S.hasTail qd S.nqRot
+  | .lineB =>
+    let r : V3 K :=
+      if S.euler then (bodyXYZ_NInv_B (g C.c 1) (g C.s 1) (g C.c 2) (g C.s 2)).mulVec (v3at qd 0)
+      else R_FM.tr.mulVec (quat_NInv C.quat ⟨g qd 0, g qd 1, g qd 2, g qd 3⟩)
+    [r.x, r.y] ++ tail3 S.hasTail qd S.nqRot
+
+/-- `multiplyByNInv(matrixOnRight=true)` : `out_q = ~NInv in_u` -/
+def Spec.mulNInvT (S : Spec K) (C : Coords K) (R_FM : M33 K) (u : List K) : List K :=
+  match S.nkind with
+  | .ident => u.take S.nu
+  | .ballP =>
+    (if S.euler then l3 (bodyXYZ_NInvT_P (g C.c 0) (g C.s 0) (g C.c 1) (g C.s 1) (v3at u 0))
+     else l4 (quat_NInvT C.quat (v3at u 0))) ++ tail3 S.hasTail u 3
+  | .lineB =>
+    let wM : V3 K := ⟨g u 0, g u 1, 0⟩
+    (if S.euler then l3 ((bodyXYZ_NInv_B (g C.c 1) (g C.s 1) (g C.c 2) (g C.s 2)).tr.mulVec wM)
+     else l4 (quat_NInvT C.quat (R_FM.mulVec wM))) ++ tail3 S.hasTail u 2
+
+/-- `multiplyByNDot(matrixOnRight=false)` : `out_q = NDot(q, qdot) in_u` -/
+def Spec.mulNDot (S : Spec K) (C : Coords K) (R_FM : M33 K) (qdot : List K) (u : List K) : List K :=
+  match S.nkind with
+  | .ident => (u.take S.nu).map (fun _ => 0)
+  | .ballP =>
+    (if S.euler then l3 ((bodyXYZ_NDot_P (g C.c 0) (g C.s 0) (g C.s 1) C.ooc1 (v3at qdot 0)).mulVec (v3at u 0))
+     else l4 (quat_N ⟨g qdot 0, g qdot 1, g qdot 2, g qdot 3⟩ (v3at u 0))) ++ zeros3 S.hasTail
+  | .lineB =>
+    let wM : V3 K := ⟨g u 0, g u 1, 0⟩
+    (if S.euler then l3 ((bodyXYZ_NDot_B (g C.c 2) (g C.s 2) (g C.s 1) C.ooc1 (v3at qdot 0)).mulVec wM)
+     else l4 (quat_N ⟨g qdot 0, g qdot 1, g qdot 2, g qdot 3⟩ (R_FM.mulVec wM))) ++ zeros3 S.hasTail
+
+/-- `multiplyByNDot(matrixOnRight=true)` : `out_u = ~NDot in_q` -/
+def Spec.mulNDotT (S : Spec K) (C : Coords K) (R_FM : M33 K) (qdot : List K) (f : List K) : List K :=
+  match S.nkind with
+  | .ident => (f.take S.nu).map (fun _ => 0)
+  | .ballP =>
+    (if S.euler then l3 ((bodyXYZ_NDot_P (g C.c 0) (g C.s 0) (g C.s 1) C.ooc1 (v3at qdot 0)).tr.mulVec (v3at f 0))
+     else l3 (quat_NT ⟨g qdot 0, g qdot 1, g qdot 2, g qdot 3⟩ ⟨g f 0, g f 1, g f 2, g f 3⟩)) ++ zeros3 S.hasTail
+  | .lineB =>
+    let r : V3 K :=
+      if S.euler then (bodyXYZ_NDot_B (g C.c 2) (g C.s 2) (g C.s 1) C.ooc1 (v3at qdot 0)).tr.mulVec (v3at f 0)
+      else R_FM.tr.mulVec (quat_NT ⟨g qdot 0, g qdot 1, g qdot 2, g qdot 3⟩ ⟨g f 0, g f 1, g f 2, g f 3⟩)
+    [r.x, r.y] ++ zeros3 S.hasTail
+
+/-- `calcQDotDot` : `N udot + NDot u` by the specialised routines -/
+def Spec.qdotdot (S : Spec K) (C : Coords K) (R_FM : M33 K) (qdot u udot : List K) : List K :=
+  match S.nkind with
+  | .ident => udot.take S.nu
+  | .ballP =>
+    (if S.euler then
+       l3 (bodyXYZ_qdotdot_P (g C.c 0) (g C.s 0) (g C.c 1) (g C.s 1) C.ooc1 (v3at qdot 0) (v3at udot 0))
+     else l4 (quat_qdotdot C.quat (v3at u 0) (v3at udot 0))) ++ tail3 S.hasTail udot 3
+  | .lineB =>
+    let wM : V3 K := ⟨g u 0, g u 1, 0⟩
+    let wdM : V3 K := ⟨g udot 0, g udot 1, 0⟩
+    (if S.euler then
+       -- convertAngVelDotInBodyFrameToBodyXYZDotDot: N*wdot + NDot(N*w)*w
+       let N := bodyXYZ_N_B (g C.s 1) (g C.c 2) (g C.s 2) C.ooc1
+       let qd := N.mulVec wM
+       l3 (V3.add (N.mulVec wdM) ((bodyXYZ_NDot_B (g C.c 2) (g C.s 2) (g C.s 1) C.ooc1 qd).mulVec wM))
+     else l4 (quat_qdotdot C.quat (R_FM.mulVec wM) (R_FM.mulVec wdM))) ++ tail3 S.hasTail udot 2
+
+/-- the *documented* `X_F0M0(q)` where the public header defines one (otherwise the coded one) -/
+def Spec.docX0 (S : Spec K) (C : Coords K) : Xf K :=
+  let c := g C.c; let s := g C.s; let q := g C.q
+  match S.ty with
+  | .pin => Pin.docX (c 0) (s 0)
+  | .slider => Slider.docX (q 0)
+  | .cylinder => Cylinder.docX (c 0) (s 0) (q 1)
+  | .bendStretch => BendStretch.docX (c 0) (s 0) (q 1)
+  | .universal => Universal.docX (c 0) (s 0) (c 1) (s 1)
+  | .planar => Planar.docX (c 0) (s 0) (q 1) (q 2)
+  | .gimbal => Gimbal.docX (c 0) (c 1) (c 2) (s 0) (s 1) (s 2)
+  | .bushing => Bushing.docX (c 0) (c 1) (c 2) (s 0) (s 1) (s 2) (v3at C.q 3)
+  | .ball => if S.euler then Gimbal.docX (c 0) (c 1) (c 2) (s 0) (s 1) (s 2) else Ball.docXq C.quat C.oon
+  | .free => if S.euler then Free.docXe (c 0) (c 1) (c 2) (s 0) (s 1) (s 2) (v3at C.q 3)
+             else Free.docXq C.quat C.oon (v3at C.q 4)
+  | .translation => Translation.docX (v3at C.q 0)
+  | .screw => Screw.docX (g S.par 0) (c 0) (s 0) (q 0)
+  | .sphericalCoords => SphericalCoords.docX S.sph (c 0) (s 0) (c 1) (s 1) (q 2)
+  | .cantilever => Cantilever.docX (g S.par 0) (g S.par 1) (g S.par 2) (c 0) (c 1) (c 2) (s 0) (s 1) (s 2) (q 0) (q 1)
+  | .ellipsoid =>
+    let R := if S.euler then Gimbal.docR (c 0) (c 1) (c 2) (s 0) (s 1) (s 2) else Ball.docRq C.quat C.oon
+    Ellipsoid.Xof (v3at S.par 0) R
+  | .lineOrientation =>
+    ⟨if S.euler then Gimbal.docR (c 0) (c 1) (c 2) (s 0) (s 1) (s 2) else Ball.docRq C.quat C.oon, V3.zero⟩
+  | .freeLine =>
+    ⟨if S.euler then Gimbal.docR (c 0) (c 1) (c 2) (s 0) (s 1) (s 2) else Ball.docRq C.quat C.oon,
+     v3at C.q (if S.euler then 3 else 4)⟩
+  | .weld => Xf.one
+
+/-- all kinematic results of one mobilized body, given its parent's pose and velocity -/
+structure BodyKin (K : Type) where
+  X_FM : Xf K
+  H_FM : List (SV K)
+  V_FM : SV K
+  X_PBv : Xf K
+  X_GBv : Xf K
+  H : List (SV K)
+  V_GBv : SV K
+  qdot : List K
+  HDot_FM : List (SV K)
+  HDot : List (SV K)
+  cor : SV K
+
+/-- `realizePosition` + `realizeVelocity` of one node -/
+def Spec.realize (S : Spec K) (C : Coords K) (rev : Bool) (X_GP : Xf K) (V_GP : SV K) (X_PF X_MB : Xf K)
+    (u : List K) : BodyKin K :=
+  let Xdef := S.X0 C
+  let X_FM := realizeX rev Xdef
+  let X0 := findX_F0M0 rev X_FM
+  let H0 := S.H0 C X0
+  let H_FM := realizeH rev X_FM H0 S.Hrev
+  let Xpb := X_PB X_PF X_FM X_MB
+  let Xgb := Xf.mul X_GP Xpb
+  let Hg := H_PB_G X_GP.R X_PF X_FM X_MB H_FM
+  let qd := S.mulN C X_FM.R u
+  let V_FM := Hmul H_FM u
+  let V_PB_G := Hmul Hg u
+  let V0 := findV_F0M0 rev X_FM V_FM
+  let HD0 := S.HDot0 C X0 V0 qd
+  let HD_FM := realizeHDot rev X_FM V_FM H_FM HD0 S.HDotRev
+  let HD := HDot_PB_G X_GP.R V_GP.w X_PF X_FM X_MB V_FM.w H_FM HD_FM Hg
+  let Vgb := V_GB X_GP V_GP Xpb V_PB_G
+  ⟨X_FM, H_FM, V_FM, Xpb, Xgb, Hg, Vgb, qd, HD_FM, HD, coriolisA V_GP Vgb (Hmul HD u)⟩
+
+end Dispatch
 
 end Mobilizer
